@@ -31,7 +31,13 @@ type c16request struct {
 func runC16(c *core.Ctx) {
 	t := c.T
 	ctx := logger.ContextWithNoLogger(context.Background())
-	concurrent := 1 + t.Draw(4)
+	// the first draw also selects the world (values 0-3 keep the meaning recorded tapes gave them)
+	first := t.Draw(6)
+	if first >= 4 {
+		runC16Stack(c) // full stack: real NodeManager and BitcoinNodes over simulated connections
+		return
+	}
+	concurrent := 1 + first
 	delay := []time.Duration{time.Second, 5 * time.Second, 30 * time.Second}[t.Draw(3)]
 	nBlocks := 1 + t.Draw(3)
 	steps := 5 + t.Draw(60)
